@@ -1,14 +1,58 @@
-"""C09 — list commands preserve order, multiplicity and length exactly."""
-from . import gen, memlib
+"""C09 — list commands preserve order, multiplicity and length exactly.
+
+Proof half: coq/Properties/C09.v (15 theorems about the model coq/Mem/Lists.v against the
+reference clauses coq/Mem/ListsSpec.v).  Tie: the shared keyspace pipeline (checks/memlib.py):
+generated programs -> real server.Manager under Go's virtual clock -> trace -> the extracted
+model replays every step and compares every reply, every canonical keyspace dump (with the H1
+forward/backward/Len self-check of every stored list, after every step) and, for the blocking
+forms, the instant at which the command returned (T lines) and the replies of the commands a
+second connection issued meanwhile (BG directive / G lines)."""
+import os
+
+from . import gen_list, memlib
 
 PID = "C09"
 
+# a step still blocked after this many virtual ms is cancelled by the harness and traced as
+# !BLOCKED (BLPOP with timeout 0 and nothing to pop); not a multiple of 100 (never on a tick)
+WATCHDOG_MS = "20050"
+
 
 def make_cases(tier, seed):
-    n = 400 if tier == "quick" else 6000
-    return gen.gen_c09(seed, n)
+    quick = tier == "quick"
+    cases = []
+    cases += gen_list.regress()
+    cases += gen_list.gen_boundary(seed, full=not quick)
+    cases += gen_list.gen_exhaustive(2 if quick else 3)
+    cases += gen_list.gen_ttl(seed, 2000 if quick else 20000)
+    cases += gen_list.gen_blocking(seed, 2000 if quick else 20000)
+    cases += gen_list.gen_random(seed, 8000 if quick else 100000)
+    return cases
+
+
+RULE = ("regression programs; systematic boundary sweeps (every index pair for LRANGE/LTRIM, every index for LINDEX/LSET, "
+        "every count for LPOP/RPOP/LREM around lengths 0-5 incl. min/max int64 and non-integers, every LPOS RANK/COUNT/MAXLEN "
+        "combination in random order and letter case, LMOVE in all four direction pairs x same/other/missing/wrong-typed "
+        "destination with deadlines; quick tier: seeded sample, thorough: all); bounded-exhaustive: all programs of length <= 2 "
+        "(quick) / <= 3 (thorough) over a 24-command alphabet on 2 keys; TTL interplay (EXPIRE on a list, pushes/pops/blocking "
+        "pops across the deadline); blocking forms with a second connection acting at chosen virtual instants (BG directive), "
+        "timeout 0 incl. the watchdog path; seeded random programs (1-30 commands, 2-4 keys, duplicate/empty/binary elements, "
+        "keys holding strings, malformed arity); a keyspace dump with the H1 list self-check follows every step")
 
 
 def run(ctx):
-    return memlib.run_family(ctx, PID, make_cases,
-                             rule="seeded random programs (1-30 commands) of list commands over 2-5 keys with duplicate/empty/binary elements, boundary indexes and counts, a malformed-arity stream, some keys pre-populated with a string")
+    os.environ["VERIF_WATCHDOG_MS"] = WATCHDOG_MS
+    return memlib.run_family(
+        ctx, PID, make_cases, rule=RULE,
+        extra_tb=[
+            "pointer linkage of memdb.List (Head/Tail/Prev/Next) is not modelled: checked at run time by hook H1 "
+            "(forward walk = reverse of backward walk, both = Len) in every dump, i.e. after every step",
+            "BLPOP/BRPOP: goroutine scheduling and Go's select are modelled as a polling process over virtual time "
+            "(ticks every 100 ms, timer); instants where a tick coincides with the timer or with another connection's "
+            "command are avoided by the generators (either order is legitimate there)",
+            "reference clauses (coq/Mem/ListsSpec.v) transcribed from memory of the Redis command reference; "
+            "LPOP/RPOP count 0 is given latitude (error or empty array)",
+        ],
+        assumptions=["harness/mem.go BG directive, T/G/WD trace lines and the per-step watchdog; ml/memrun.ml replays them "
+                     "through extracted srv_exec_bg (coq/Mem/ListsBg.v)"],
+        extra_cov=dict(watchdog_ms=int(WATCHDOG_MS)))
